@@ -415,9 +415,10 @@ def _checks():
             run_case=run_flag_case,
             rule='10 strings x 10 newlines x both modes split in this '
                  'interpreter and in children started with python -O and '
-                 'python -bb: identical results (nothing may hang on an '
-                 'assert statement being executed or on comparing bytes '
-                 'with str); every comparison is non-trivial',
+                 'python -bb (and with DEBUG logging on), in a second '
+                 'thread of this process, and again after five library '
+                 'calls that fail: identical results; every comparison is '
+                 'non-trivial',
             bound={'quick': '200 results, three interpreters',
                    'thorough': 'same'}),
     ]
@@ -502,6 +503,7 @@ def flag_chunks(tier, seed):
 def run_flag_chunk(_chunk, st):
     from dxv import ocheck
     n = ocheck.compare(st, ('split',), sut.HarnessError)
+    n += ocheck.in_process_variants(st, ('split',))
     st.bulk(n, n, sample={'results-compared': n})
 
 
